@@ -10,9 +10,31 @@ def run(rep, tier, seed):
     ops = ["copy", "copy", "copy", "bounds", "assign", "assume", "arith", "join", "meet", "widen", "forget", "normalize",
            "q_leq", "q_entails", "q_csts", "wassign", "expand", "project"]
     n = 500 if tier == "quick" else 10000
+    plain = {}
+
+    def wrapper_oracle(line, ans, rng=None):
+        """the property itself for the wrappers: on the same history the wrapped domain must answer
+        what the unwrapped one answers (then the usual concrete-store oracle)"""
+        p = plain.get(line)
+        if p is not None and ans != p and not ans.startswith("ABORT"):
+            pa, wa = p.split(" ; "), ans.split(" ; ")
+            k = next((i for i in range(min(len(pa), len(wa))) if pa[i] != wa[i]), min(len(pa), len(wa)))
+            ops = line.split(" ; ")
+            return ("step %d (%s) of: %s: through the wrapper the answer is %s, the unwrapped interval_domain answers %s"
+                    % (k + 1, ops[k + 1] if k + 1 < len(ops) else "?", line, wa[k] if k < len(wa) else "(missing)", pa[k] if k < len(pa) else "(missing)"))
+        return domhist.oracle(line, ans, rng)
+
     for mode in ("plain", "gen", "ref"):
         lines = domhist.gen(seed + 16, tier, opts={"ops": ops}, n=n)
-        vlib.run_stream(rep, "itv-copies-" + mode, "itvdom", "itvdom", lines, oracle=domhist.oracle,
-                        nontrivial=domhist.nontrivial, key=lambda l: "history", extra_args=["--mode=" + mode])
+        # every method of the wrappers: the full operation language (thresholds widening, narrowing, casts,
+        # bitwise operators, select, rename ...)
+        lines += domhist.gen(seed + 17, tier, opts={"corpus": False}, n=n // 2)
+        import random
+        lines += domhist.gen_widenthr(random.Random(seed + 18), 60 if tier == "quick" else 1000)
+        r = vlib.run_stream(rep, "itv-copies-" + mode, "itvdom", "itvdom", lines,
+                            oracle=(domhist.oracle if mode == "plain" else wrapper_oracle),
+                            nontrivial=domhist.nontrivial, key=lambda l: "history", extra_args=["--mode=" + mode])
+        if mode == "plain" and r:
+            plain = {l: r[0].get(i) for i, l in enumerate(lines) if r[0].get(i) is not None}
     import domall
     domall.search(rep, tier, seed, "C16")
